@@ -123,9 +123,10 @@ func r201(c *Ctx) {
 }
 
 // guardForm classifies the condition set dominating an error return of preRun.
-func (c *Ctx) preRunGuard(ret *ssa.Return) string {
+func (c *Ctx) preRunGuard(conds []condEdge) string {
 	var parts []string
-	for _, ce := range dominatingConds(ret.Block()) {
+	seenPart := map[string]bool{}
+	for _, ce := range conds {
 		p := "?"
 		switch x := ce.cond.(type) {
 		case *ssa.Call:
@@ -149,7 +150,10 @@ func (c *Ctx) preRunGuard(ret *ssa.Return) string {
 		if !ce.taken {
 			p = "!" + p
 		}
-		parts = append(parts, p)
+		if !seenPart[p] {
+			seenPart[p] = true
+			parts = append(parts, p)
+		}
 	}
 	sort.Strings(parts)
 	return strings.Join(parts, " && ")
@@ -186,11 +190,12 @@ func r202(c *Ctx) {
 		`!Contains(PathPrefixes,"/") && TLSEnabled`:      "TLS without the root path",
 	}
 	seen := map[string]bool{}
-	for _, ret := range normalReturns(pre) {
-		if isNilConst(lastRet(ret)) {
+	for _, rc := range retCases(pre) {
+		res := rc.vals[len(rc.vals)-1]
+		if isNilConst(res) {
 			continue
 		}
-		g := c.preRunGuard(ret)
+		g := c.preRunGuard(rc.conds)
 		// earlier guards that were passed show up as negative facts; strip facts that belong to other rows
 		matched := ""
 		for w := range want {
@@ -204,8 +209,8 @@ func r202(c *Ctx) {
 				matched = w
 			}
 		}
-		_, isErr := lastRet(ret).(*ssa.Call)
-		c.ob(rule, "preRun/error-return ["+g+"]", ret.Pos(), matched != "" && isErr, true, func() string {
+		_, isErr := res.(*ssa.Call)
+		c.ob(rule, "preRun/error-return ["+g+"]", rc.pos, matched != "" && isErr, true, func() string {
 			if matched != "" {
 				return "refuses: " + want[matched]
 			}
@@ -470,7 +475,7 @@ func r204(c *Ctx) {
 		}
 		for _, cs := range callsToName(fn, "(*net/rpc.Client).Call") {
 			n++
-			name, isConst := constString(cs.common().Args[1])
+			name, isConst := constStringDeep(cs.common().Args[1])
 			parts := strings.SplitN(name, ".", 2)
 			if !isConst || len(parts) != 2 {
 				c.ob(rule, "Call in "+fname(fn)+"/constant-method-name", cs.pos(), false, true, "")
@@ -481,8 +486,20 @@ func r204(c *Ctx) {
 			detail := "method " + name
 			if okM {
 				sig := sel.Type().(*types.Signature)
-				argT := stripConv(cs.common().Args[2]).Type()
-				repT := stripConv(cs.common().Args[3]).Type()
+				// the dynamic type handed to net/rpc: look through interface boxing and single-assignment locals
+				dyn := func(v ssa.Value) types.Type {
+					for i := 0; i < 6; i++ {
+						v = stripConv(v)
+						r := resolve(v)
+						if r == v {
+							break
+						}
+						v = r
+					}
+					return v.Type()
+				}
+				argT := dyn(cs.common().Args[2])
+				repT := dyn(cs.common().Args[3])
 				okM = sig.Params().Len() == 2 && types.Identical(sig.Params().At(0).Type(), argT) && types.Identical(sig.Params().At(1).Type(), repT)
 				detail = fmt.Sprintf("%s(%s, %s) called with (%s, %s)", name, typeString(sig.Params().At(0).Type()), typeString(sig.Params().At(1).Type()), typeString(argT), typeString(repT))
 			}
@@ -496,7 +513,7 @@ func r204(c *Ctx) {
 		run := c.methodIn(c.cmd, t, "run")
 		ok := false
 		for _, cs := range callsToNameDeep(run, "(*net/rpc.Client).Call") {
-			if name, _ := constString(cs.common().Args[1]); name == "kamal-proxy."+m {
+			if name, _ := constStringDeep(cs.common().Args[1]); name == "kamal-proxy."+m {
 				ok = true
 			}
 		}
@@ -575,15 +592,9 @@ func r205(c *Ctx) {
 		}
 	}
 	c.ob(rule, "CommandHandler.List/replies-with-ListActiveServices", lh.Pos(), okL, true, "")
-	// displayResponse: one row per key, sorted, six columns from that entry
+	// displayResponse: one row per key, six columns from that entry
 	dr := c.methodIn(c.cmd, "listCommand", "displayResponse")
-	sorted := false
-	for _, cs := range callsIn(dr) {
-		if o := calleeObj(cs.common()); o != nil && o.Pkg() != nil && o.Pkg().Path() == "slices" && o.Name() == "Sorted" {
-			sorted = true
-		}
-	}
-	c.ob(rule, "displayResponse/rows-in-sorted-order", dr.Pos(), sorted, true, "")
+	// (the order of the rows is not part of the property and is not checked)
 	rows := 0
 	for _, cs := range callsTo(dr, c.methodIn(c.cmd, "Table", "AddRow")) {
 		if inLoop(cs.instr.Block()) {
